@@ -211,6 +211,11 @@ func genC08Maps(level int) []*MapScen {
 		for _, w := range writeOps {
 			add(&MapScen{Rel: RelSS, NKeys: 2, Init: []int{1, 0}, Table: TPlain, Threads: [][]MIn{{opClear}, {on(w, 0)}}})
 		}
+		// a grow-only map: Size is 0 after Clear
+		for _, cyc := range []bool{false, true} {
+			add(&MapScen{Rel: RelSD, NKeys: 2, Init: []int{1, 1}, Table: TPlain, GrowOnly: true, Cycled: cyc, Threads: [][]MIn{{opClear}, {on(opStore, 1)}}})
+			add(&MapScen{Rel: RelSD, NKeys: 2, Init: []int{1, 1}, Table: TPlain, GrowOnly: true, Cycled: cyc, Threads: [][]MIn{{opClear}}})
+		}
 		// the same on a map that has grown and shrunk back before (used counter stripes, a resize history)
 		for _, w := range []MIn{opStore, opDelete, opLaD, opLoS, opClear} {
 			add(&MapScen{Rel: RelSS, NKeys: 2, Init: []int{1, 0}, Table: TPlain, Cycled: true, Threads: [][]MIn{{on(opStore, 1)}, {on(w, 0)}}})
